@@ -27,6 +27,8 @@ pub enum Op {
     FromAcgt(Seq),
     /// arbitrary ASCII/bytes through the lenient constructor: non-ACGT becomes A
     FromAcgtRaw(Vec<u8>),
+    /// hashed-N constructor: (bytes, read name)
+    FromHashn(Vec<u8>, Vec<u8>),
     Push(u8),
     Extend(Seq),
     PushBytes(Vec<u8>, u16),
@@ -65,6 +67,7 @@ fn op() -> BoxedStrategy<Op> {
         2 => seq().prop_map(Op::FromBytes),
         1 => seq().prop_map(Op::FromStr),
         1 => seq().prop_map(Op::FromAcgt),
+        1 => (len_strategy().prop_flat_map(|n| proptest::collection::vec(proptest::sample::select(b"ACGTacgtNNNn-R".to_vec()), n)), proptest::collection::vec(any::<u8>(), 0..6)).prop_map(|(b, n)| Op::FromHashn(b, n)),
         2 => len_strategy().prop_flat_map(|n| proptest::collection::vec(prop_oneof![3 => proptest::sample::select(b"ACGTacgtNnSWDswd347#$-.".to_vec()), 1 => any::<u8>()], n)).prop_map(Op::FromAcgtRaw),
         6 => (0u8..4).prop_map(Op::Push),
         6 => seq().prop_map(Op::Extend),
@@ -233,6 +236,29 @@ pub fn check(c: &Case) -> CheckResult {
                         _ => 0,
                     })
                     .collect();
+                was_blank = false;
+            }
+            Op::FromHashn(t, name) => {
+                d = DnaString::from_acgt_bytes_hashn(t, name);
+                // the substituted base is a function of (read name, position): the same position in a read whose
+                // other non-ACGT bytes are replaced by A must get the same base
+                let is_acgt = |c: &u8| matches!(c, b'A' | b'C' | b'G' | b'T' | b'a' | b'c' | b'g' | b't');
+                m = Vec::with_capacity(t.len());
+                for (i, c) in t.iter().enumerate() {
+                    let b = match c {
+                        b'A' | b'a' => 0,
+                        b'C' | b'c' => 1,
+                        b'G' | b'g' => 2,
+                        b'T' | b't' => 3,
+                        _ => {
+                            let mut single: Vec<u8> = t.iter().map(|x| if is_acgt(x) { *x } else { b'A' }).collect();
+                            single[i] = *c;
+                            let r = DnaString::from_acgt_bytes_hashn(&single, name);
+                            r.get(i)
+                        }
+                    };
+                    m.push(b);
+                }
                 was_blank = false;
             }
             Op::Push(b) => {
